@@ -32,6 +32,8 @@ type history struct {
 	// Forward: the client listener has a forward address that is reachable, so every connection is made directly
 	// (the client's direct path has its own copy loop and its own closes)
 	Forward bool `json:"listener_forwards_directly,omitempty"`
+	// FramePart (ending cut-fin-inside-frame): which partial frame precedes the end of the carrier
+	FramePart int `json:"partial_frame,omitempty"`
 }
 
 // refusedConn asks for something the server must refuse; the application connection has to end without data.
@@ -172,6 +174,225 @@ func noteExit(s string) {
 
 const slack = 3
 
+type historyFailure string
+
+// judgeHistory runs one history against a fresh pair; failure = description of the violation ("" = none).
+func judgeHistory(h history) (failure string, meas map[string]interface{}, inconclusive bool) {
+	viaRelay := h.Carrier != vlib.CarStdio
+	defer func() {
+		if r := recover(); r != nil {
+			if hf, ok := r.(historyFailure); ok {
+				failure = string(hf)
+				return
+			}
+			panic(r)
+		}
+	}()
+	fail := func(msg string, extra map[string]interface{}) {
+		v := map[string]interface{}{"property": "C14", "history": h, "problem": msg, "goroutines": vlib.GoroutineSummary(12), "descriptors": vlib.FDSummary(), "log": vlib.Tap.Tail(40)}
+		for k, x := range extra {
+			v[k] = x
+		}
+		v["goroutine_dump"] = vlib.DumpGoroutines("c14")
+		vlib.Rec.Violation(v)
+		panic(historyFailure(fmt.Sprintf("C14 %+v: %s\ngoroutines: %v\ndescriptors: %v\nlog: %v", h, msg, vlib.GoroutineSummary(12), vlib.FDSummary(), vlib.Tap.Tail(40))))
+	}
+
+	vlib.Tap.Reset()
+	before := vlib.Quiesce(5 * time.Second)
+	tgt := vlib.NewTarget("data", makeHandler(h))
+	cfg := vlib.PairConfig{Carrier: h.Carrier, ClientInsecure: true, ViaRelay: viaRelay,
+		Channels:  []vlib.ChannelSpec{{Name: "data", Target: tgt.URL()}},
+		Listeners: []vlib.ListenerSpec{{Channel: "data"}}}
+	if h.Forward {
+		cfg.Listeners[0].Forward = tgt.URL()
+	}
+	var deadPort net.Listener
+	if h.Refused != "" {
+		// "nochan": a listener for a channel the server does not have; "dead": a channel whose target port is
+		// bound but not listening any more (connection refused)
+		deadPort, _ = net.Listen("tcp", "127.0.0.1:0")
+		dead := deadPort.Addr().String()
+		deadPort.Close()
+		cfg.Channels = append(cfg.Channels, vlib.ChannelSpec{Name: "dead", Target: "tcp://" + dead})
+		cfg.Listeners = append(cfg.Listeners, vlib.ListenerSpec{Channel: "nochan"}, vlib.ListenerSpec{Channel: "dead"})
+	}
+	if h.StartTLS || h.Carrier == vlib.CarTCPTLS {
+		cfg.ServerCert = &vlib.GetPKI().ServerGood
+	}
+	p, err := vlib.StartPair(cfg)
+	if err != nil {
+		tgt.Close()
+		if vlib.IsBindError(err) {
+			vlib.Rec.Inconclusive("bind")
+			return "", nil, true
+		}
+		panic(historyFailure(fmt.Sprintf("pair start: %v", err)))
+	}
+	closed := false
+	cleanup := func() {
+		if !closed {
+			closed = true
+			p.Close()
+			tgt.Close()
+		}
+	}
+	defer cleanup()
+
+	// A socket that is merely forgotten is closed by its finaliser at some later garbage collection; that is not
+	// "reclaimed when the connection ends". The collector is therefore switched off while connections are counted.
+	defer debug.SetGCPercent(debug.SetGCPercent(-1))
+	// warm-up: establishes the physical session and any lazily started workers
+	if msg := runConns(p, tgt, h, 3); msg != "" {
+		fail("warm-up connection failed: "+msg, nil)
+	}
+	idle := vlib.Quiesce(10 * time.Second)
+	idleFDs := vlib.FDSummary()
+
+	if msg := runConns(p, tgt, h, h.N1); msg != "" {
+		fail("connection failed: "+msg, nil)
+	}
+	m1 := vlib.QuiesceBelow(vlib.Footprint{Goroutines: idle.Goroutines + slack, FDs: idle.FDs + slack}, 10*time.Second)
+	if msg := runConns(p, tgt, h, h.N2); msg != "" {
+		fail("connection failed: "+msg, nil)
+	}
+	m2 := vlib.QuiesceBelow(vlib.Footprint{Goroutines: idle.Goroutines + slack, FDs: idle.FDs + slack}, 10*time.Second)
+
+	meas = map[string]interface{}{"before_pair": before.String(), "idle": idle.String(), "after_n1": m1.String(), "after_n2": m2.String()}
+	if m2.FDs > idle.FDs {
+		meas["descriptors_when_idle"] = idleFDs
+		meas["descriptors_after_n2"] = vlib.FDSummary()
+	}
+	// differential growth: 100 further connections may not cost more than 20 did, up to a small constant
+	g1g, g2g := m1.Goroutines-idle.Goroutines, m2.Goroutines-idle.Goroutines
+	g1f, g2f := m1.FDs-idle.FDs, m2.FDs-idle.FDs
+	if g2g-g1g > slack || g2g > 2*slack {
+		fail(fmt.Sprintf("goroutines grow with the number of finished connections: idle %d, after %d conns %d, after %d more %d", idle.Goroutines, h.N1, m1.Goroutines, h.N2, m2.Goroutines), meas)
+	}
+	if g2f-g1f > slack || g2f > 2*slack {
+		fail(fmt.Sprintf("descriptors grow with the number of finished connections: idle %d, after %d conns %d, after %d more %d", idle.FDs, h.N1, m1.FDs, h.N2, m2.FDs), meas)
+	}
+	if cpu := vlib.IdleCPU(1500 * time.Millisecond); cpu > 0.25 {
+		fail(fmt.Sprintf("process uses %.0f%% of a core while idle after %d finished connections", cpu*100, h.N1+h.N2), meas)
+	}
+
+	// logical connections that are open and idle when the session ends: their sockets on both sides must be
+	// released as well (the application sees end-of-stream, the target's connection is closed)
+	var idleConns []net.Conn
+	if h.Ending != "none" {
+		idleHandler := makeHandler(history{Closer: "app", Payload: 1})
+		tgt.SetHandler(idleHandler)
+		for i := 0; i < h.OpenAtEnd; i++ {
+			c, err := p.Dial("data")
+			if err != nil {
+				fail("dial: "+err.Error(), nil)
+			}
+			c.SetDeadline(time.Now().Add(20 * time.Second))
+			c.Write([]byte("x"))
+			if got, _ := vlib.ReadFullTimeout(c, 1, 20*time.Second); len(got) != 1 {
+				c.Close()
+				fail("idle connection did not come up", nil)
+			}
+			c.SetDeadline(time.Time{})
+			idleConns = append(idleConns, c)
+		}
+	}
+	defer func() {
+		for _, c := range idleConns {
+			c.Close()
+		}
+	}()
+
+	// session ending
+	switch h.Ending {
+	case "none":
+	case "client-shutdown":
+		p.Client.Shutdown()
+	case "server-shutdown":
+		p.Server.Shutdown()
+	case "cut-rst":
+		p.Relay.Cut(true)
+	case "cut-fin":
+		p.Relay.Cut(false)
+	case "cut-fin-inside-frame":
+		// the carrier ends in an orderly way (FIN), but in the middle of a multiplexer frame: first a drawn 1-7 bytes of
+		// a frame header, or a complete header announcing more payload than follows, then the end
+		part := [][]byte{{1}, {1, 2, 0x10}, {1, 2, 0x10, 0x00, 0x03, 0x00, 0x00}, {1, 2, 0x40, 0x00, 0x03, 0x00, 0x00, 0x00, 'x', 'y', 'z'}}[h.FramePart%4]
+		p.Relay.InjectUp(part)
+		p.Relay.InjectDown(part)
+		time.Sleep(50 * time.Millisecond)
+		p.Relay.Cut(false)
+	case "garbage":
+		junk := vlib.PRF(99, 0, 3000)
+		p.Relay.InjectUp(junk)
+		p.Relay.InjectDown(junk)
+	case "outage-and-recovery":
+		// the session is lost while the server cannot be reached; connections attempted meanwhile fail; when the
+		// server is reachable again the client must work as before and keep nothing of the failed attempts
+		p.Relay.SetDown(true)
+		p.Relay.Cut(true)
+		for i := 0; i < 2; i++ {
+			if c, err := p.Dial("data"); err == nil {
+				c.SetDeadline(time.Now().Add(10 * time.Second))
+				c.Write([]byte("anybody?"))
+				buf := make([]byte, 8)
+				c.Read(buf)
+				c.Close()
+			}
+		}
+		p.Relay.SetDown(false)
+		if msg := runConns(p, tgt, history{Carrier: h.Carrier, Closer: "app", Overlap: 1, Payload: 100}, 20); msg != "" {
+			fail("after an outage during which connection attempts failed, with the server reachable again: "+msg, meas)
+		}
+	case "silent":
+		// the carrier stays open but nothing passes any more: multiplexer keep-alive must end the session
+		p.Relay.DelayUp, p.Relay.DelayDown = time.Hour, time.Hour
+	}
+	if h.Ending != "none" {
+		wait := 6 * time.Second
+		if h.Ending == "silent" {
+			// the multiplexer checks every 30 s whether anything arrived since its previous check: a silent carrier is
+			// noticed between 30 and 60 s after the last frame
+			wait = 75 * time.Second
+		}
+		// every idle application connection must see the end of its tunnel
+		for i, c := range idleConns {
+			c.SetReadDeadline(time.Now().Add(wait + 10*time.Second))
+			buf := make([]byte, 8)
+			if _, err := c.Read(buf); err == nil {
+				fail(fmt.Sprintf("idle connection %d received data after the session ended", i), meas)
+			} else if ne, ok := err.(net.Error); ok && ne.Timeout() {
+				fail(fmt.Sprintf("after the session ended (%s) idle application connection %d of %d is never told: no end-of-stream within %v", h.Ending, i, len(idleConns), wait+10*time.Second), meas)
+			}
+			c.Close()
+		}
+		idleConns = nil
+		limit := vlib.Footprint{Goroutines: idle.Goroutines + slack, FDs: idle.FDs + slack}
+		after := vlib.QuiesceBelow(limit, wait)
+		time.Sleep(300 * time.Millisecond)
+		cpu := vlib.IdleCPU(2 * time.Second)
+		meas["after_ending"] = after.String()
+		meas["idle_cpu_after_ending"] = cpu
+		if cpu > 0.25 {
+			fail(fmt.Sprintf("after the session ended (%s) the process uses %.0f%% of a core while idle (dead session serviced in a busy loop)", h.Ending, cpu*100), meas)
+		}
+		if after.Goroutines > limit.Goroutines || after.FDs > limit.FDs {
+			fail(fmt.Sprintf("after the session ended (%s) the footprint %v stays above the idle footprint %v", h.Ending, after, idle), meas)
+		}
+	}
+	cleanup()
+	end := vlib.QuiesceBelow(vlib.Footprint{Goroutines: before.Goroutines + slack, FDs: before.FDs + slack}, 8*time.Second)
+	meas["after_shutdown"] = end.String()
+	if end.Goroutines > before.Goroutines+slack || end.FDs > before.FDs+slack {
+		if h.Carrier == vlib.CarStdio {
+			// standard-stream endpoints live as long as the process' standard streams: not judged after shutdown
+		} else {
+			fail(fmt.Sprintf("after shutting both ends down the footprint %v stays above %v (before the pair existed)", end, before), meas)
+		}
+	}
+	return "", meas, false
+}
+
 func TestReclaim(t *testing.T) {
 	rapid.Check(t, func(rt *rapid.T) {
 		carriers := []string{vlib.CarTCP, vlib.CarTCPTLS, vlib.CarHTTP, vlib.CarStdio}
@@ -181,7 +402,7 @@ func TestReclaim(t *testing.T) {
 		h.Closer = []string{"app", "target", "both"}[rapid.IntRange(0, 2).Draw(rt, "closer")]
 		h.Overlap = []int{1, 1, 2, 5}[rapid.IntRange(0, 3).Draw(rt, "overlap")]
 		h.Payload = []int{1, 100, 5000, 40000}[rapid.IntRange(0, 3).Draw(rt, "payload")]
-		endings := []string{"none", "client-shutdown", "server-shutdown", "cut-rst", "cut-fin", "garbage", "outage-and-recovery"}
+		endings := []string{"none", "client-shutdown", "server-shutdown", "cut-rst", "cut-fin", "cut-fin-inside-frame", "garbage", "outage-and-recovery"}
 		if vlib.Thorough() {
 			endings = append(endings, "silent")
 		}
@@ -189,13 +410,16 @@ func TestReclaim(t *testing.T) {
 		h.OpenAtEnd = []int{0, 0, 1, 3, 6}[rapid.IntRange(0, 4).Draw(rt, "openAtEnd")]
 		h.Refused = []string{"", "", "unknown-channel", "dead-target"}[rapid.IntRange(0, 3).Draw(rt, "refused")]
 		h.Forward = rapid.IntRange(0, 4).Draw(rt, "forward") == 0
+		if h.Ending == "cut-fin-inside-frame" {
+			h.FramePart = rapid.IntRange(0, 3).Draw(rt, "framePart")
+		}
 		if h.Forward {
 			// no physical session is involved: nothing to refuse, nothing to end
 			h.Refused = ""
 			h.Ending = "none"
 		}
 		viaRelay := h.Carrier != vlib.CarStdio
-		if !viaRelay && (h.Ending == "cut-rst" || h.Ending == "cut-fin" || h.Ending == "garbage" || h.Ending == "silent" || h.Ending == "outage-and-recovery") {
+		if !viaRelay && (h.Ending == "cut-rst" || h.Ending == "cut-fin" || h.Ending == "garbage" || h.Ending == "silent" || h.Ending == "outage-and-recovery" || h.Ending == "cut-fin-inside-frame") {
 			h.Ending = "server-shutdown"
 		}
 		if h.Carrier == vlib.CarStdio && h.Ending == "server-shutdown" {
@@ -209,199 +433,12 @@ func TestReclaim(t *testing.T) {
 			h.OpenAtEnd = 0
 		}
 
-		fail := func(msg string, extra map[string]interface{}) {
-			v := map[string]interface{}{"property": "C14", "history": h, "problem": msg, "goroutines": vlib.GoroutineSummary(12), "descriptors": vlib.FDSummary(), "log": vlib.Tap.Tail(40)}
-			for k, x := range extra {
-				v[k] = x
-			}
-			v["goroutine_dump"] = vlib.DumpGoroutines("c14")
-			vlib.Rec.Violation(v)
-			rt.Fatalf("C14 %+v: %s\ngoroutines: %v\ndescriptors: %v\nlog: %v", h, msg, vlib.GoroutineSummary(12), vlib.FDSummary(), vlib.Tap.Tail(40))
+		failure, meas, inconclusive := judgeHistory(h)
+		if inconclusive {
+			return
 		}
-
-		vlib.Tap.Reset()
-		before := vlib.Quiesce(5 * time.Second)
-		tgt := vlib.NewTarget("data", makeHandler(h))
-		cfg := vlib.PairConfig{Carrier: h.Carrier, ClientInsecure: true, ViaRelay: viaRelay,
-			Channels:  []vlib.ChannelSpec{{Name: "data", Target: tgt.URL()}},
-			Listeners: []vlib.ListenerSpec{{Channel: "data"}}}
-		if h.Forward {
-			cfg.Listeners[0].Forward = tgt.URL()
-		}
-		var deadPort net.Listener
-		if h.Refused != "" {
-			// "nochan": a listener for a channel the server does not have; "dead": a channel whose target port is
-			// bound but not listening any more (connection refused)
-			deadPort, _ = net.Listen("tcp", "127.0.0.1:0")
-			dead := deadPort.Addr().String()
-			deadPort.Close()
-			cfg.Channels = append(cfg.Channels, vlib.ChannelSpec{Name: "dead", Target: "tcp://" + dead})
-			cfg.Listeners = append(cfg.Listeners, vlib.ListenerSpec{Channel: "nochan"}, vlib.ListenerSpec{Channel: "dead"})
-		}
-		if h.StartTLS || h.Carrier == vlib.CarTCPTLS {
-			cfg.ServerCert = &vlib.GetPKI().ServerGood
-		}
-		p, err := vlib.StartPair(cfg)
-		if err != nil {
-			tgt.Close()
-			if vlib.IsBindError(err) {
-				vlib.Rec.Inconclusive("bind")
-				return
-			}
-			rt.Fatalf("pair start: %v", err)
-		}
-		closed := false
-		cleanup := func() {
-			if !closed {
-				closed = true
-				p.Close()
-				tgt.Close()
-			}
-		}
-		defer cleanup()
-
-		// A socket that is merely forgotten is closed by its finaliser at some later garbage collection; that is not
-		// "reclaimed when the connection ends". The collector is therefore switched off while connections are counted.
-		defer debug.SetGCPercent(debug.SetGCPercent(-1))
-		// warm-up: establishes the physical session and any lazily started workers
-		if msg := runConns(p, tgt, h, 3); msg != "" {
-			fail("warm-up connection failed: "+msg, nil)
-		}
-		idle := vlib.Quiesce(10 * time.Second)
-		idleFDs := vlib.FDSummary()
-
-		if msg := runConns(p, tgt, h, h.N1); msg != "" {
-			fail("connection failed: "+msg, nil)
-		}
-		m1 := vlib.QuiesceBelow(vlib.Footprint{Goroutines: idle.Goroutines + slack, FDs: idle.FDs + slack}, 10*time.Second)
-		if msg := runConns(p, tgt, h, h.N2); msg != "" {
-			fail("connection failed: "+msg, nil)
-		}
-		m2 := vlib.QuiesceBelow(vlib.Footprint{Goroutines: idle.Goroutines + slack, FDs: idle.FDs + slack}, 10*time.Second)
-
-		meas := map[string]interface{}{"before_pair": before.String(), "idle": idle.String(), "after_n1": m1.String(), "after_n2": m2.String()}
-		if m2.FDs > idle.FDs {
-			meas["descriptors_when_idle"] = idleFDs
-			meas["descriptors_after_n2"] = vlib.FDSummary()
-		}
-		// differential growth: 100 further connections may not cost more than 20 did, up to a small constant
-		g1g, g2g := m1.Goroutines-idle.Goroutines, m2.Goroutines-idle.Goroutines
-		g1f, g2f := m1.FDs-idle.FDs, m2.FDs-idle.FDs
-		if g2g-g1g > slack || g2g > 2*slack {
-			fail(fmt.Sprintf("goroutines grow with the number of finished connections: idle %d, after %d conns %d, after %d more %d", idle.Goroutines, h.N1, m1.Goroutines, h.N2, m2.Goroutines), meas)
-		}
-		if g2f-g1f > slack || g2f > 2*slack {
-			fail(fmt.Sprintf("descriptors grow with the number of finished connections: idle %d, after %d conns %d, after %d more %d", idle.FDs, h.N1, m1.FDs, h.N2, m2.FDs), meas)
-		}
-		if cpu := vlib.IdleCPU(1500 * time.Millisecond); cpu > 0.25 {
-			fail(fmt.Sprintf("process uses %.0f%% of a core while idle after %d finished connections", cpu*100, h.N1+h.N2), meas)
-		}
-
-		// logical connections that are open and idle when the session ends: their sockets on both sides must be
-		// released as well (the application sees end-of-stream, the target's connection is closed)
-		var idleConns []net.Conn
-		if h.Ending != "none" {
-			idleHandler := makeHandler(history{Closer: "app", Payload: 1})
-			tgt.SetHandler(idleHandler)
-			for i := 0; i < h.OpenAtEnd; i++ {
-				c, err := p.Dial("data")
-				if err != nil {
-					fail("dial: "+err.Error(), nil)
-				}
-				c.SetDeadline(time.Now().Add(20 * time.Second))
-				c.Write([]byte("x"))
-				if got, _ := vlib.ReadFullTimeout(c, 1, 20*time.Second); len(got) != 1 {
-					c.Close()
-					fail("idle connection did not come up", nil)
-				}
-				c.SetDeadline(time.Time{})
-				idleConns = append(idleConns, c)
-			}
-		}
-		defer func() {
-			for _, c := range idleConns {
-				c.Close()
-			}
-		}()
-
-		// session ending
-		switch h.Ending {
-		case "none":
-		case "client-shutdown":
-			p.Client.Shutdown()
-		case "server-shutdown":
-			p.Server.Shutdown()
-		case "cut-rst":
-			p.Relay.Cut(true)
-		case "cut-fin":
-			p.Relay.Cut(false)
-		case "garbage":
-			junk := vlib.PRF(99, 0, 3000)
-			p.Relay.InjectUp(junk)
-			p.Relay.InjectDown(junk)
-		case "outage-and-recovery":
-			// the session is lost while the server cannot be reached; connections attempted meanwhile fail; when the
-			// server is reachable again the client must work as before and keep nothing of the failed attempts
-			p.Relay.SetDown(true)
-			p.Relay.Cut(true)
-			for i := 0; i < 2; i++ {
-				if c, err := p.Dial("data"); err == nil {
-					c.SetDeadline(time.Now().Add(10 * time.Second))
-					c.Write([]byte("anybody?"))
-					buf := make([]byte, 8)
-					c.Read(buf)
-					c.Close()
-				}
-			}
-			p.Relay.SetDown(false)
-			if msg := runConns(p, tgt, history{Carrier: h.Carrier, Closer: "app", Overlap: 1, Payload: 100}, 20); msg != "" {
-				fail("after an outage during which connection attempts failed, with the server reachable again: "+msg, meas)
-			}
-		case "silent":
-			// the carrier stays open but nothing passes any more: multiplexer keep-alive must end the session
-			p.Relay.DelayUp, p.Relay.DelayDown = time.Hour, time.Hour
-		}
-		if h.Ending != "none" {
-			wait := 6 * time.Second
-			if h.Ending == "silent" {
-				// the multiplexer checks every 30 s whether anything arrived since its previous check: a silent carrier is
-				// noticed between 30 and 60 s after the last frame
-				wait = 75 * time.Second
-			}
-			// every idle application connection must see the end of its tunnel
-			for i, c := range idleConns {
-				c.SetReadDeadline(time.Now().Add(wait + 10*time.Second))
-				buf := make([]byte, 8)
-				if _, err := c.Read(buf); err == nil {
-					fail(fmt.Sprintf("idle connection %d received data after the session ended", i), meas)
-				} else if ne, ok := err.(net.Error); ok && ne.Timeout() {
-					fail(fmt.Sprintf("after the session ended (%s) idle application connection %d of %d is never told: no end-of-stream within %v", h.Ending, i, len(idleConns), wait+10*time.Second), meas)
-				}
-				c.Close()
-			}
-			idleConns = nil
-			limit := vlib.Footprint{Goroutines: idle.Goroutines + slack, FDs: idle.FDs + slack}
-			after := vlib.QuiesceBelow(limit, wait)
-			time.Sleep(300 * time.Millisecond)
-			cpu := vlib.IdleCPU(2 * time.Second)
-			meas["after_ending"] = after.String()
-			meas["idle_cpu_after_ending"] = cpu
-			if cpu > 0.25 {
-				fail(fmt.Sprintf("after the session ended (%s) the process uses %.0f%% of a core while idle (dead session serviced in a busy loop)", h.Ending, cpu*100), meas)
-			}
-			if after.Goroutines > limit.Goroutines || after.FDs > limit.FDs {
-				fail(fmt.Sprintf("after the session ended (%s) the footprint %v stays above the idle footprint %v", h.Ending, after, idle), meas)
-			}
-		}
-		cleanup()
-		end := vlib.QuiesceBelow(vlib.Footprint{Goroutines: before.Goroutines + slack, FDs: before.FDs + slack}, 8*time.Second)
-		meas["after_shutdown"] = end.String()
-		if end.Goroutines > before.Goroutines+slack || end.FDs > before.FDs+slack {
-			if h.Carrier == vlib.CarStdio {
-				// standard-stream endpoints live as long as the process' standard streams: not judged after shutdown
-			} else {
-				fail(fmt.Sprintf("after shutting both ends down the footprint %v stays above %v (before the pair existed)", end, before), meas)
-			}
+		if failure != "" {
+			rt.Fatalf("%s", failure)
 		}
 		nontrivial := h.Closer != "app" || h.Ending != "none" || h.Refused != ""
 		labels := []string{"refused:" + h.Refused, fmt.Sprintf("forward:%v", h.Forward), "carrier:" + h.Carrier, "closer:" + h.Closer, "ending:" + h.Ending, fmt.Sprintf("overlap:%d", h.Overlap), fmt.Sprintf("open-at-end:%d", h.OpenAtEnd)}
@@ -410,4 +447,24 @@ func TestReclaim(t *testing.T) {
 		}
 		vlib.Rec.Case(fmt.Sprintf("%+v", h), nontrivial, labels, func() interface{} { return map[string]interface{}{"history": h, "measured": meas} })
 	})
+}
+
+// TestCarrierEndsInsideAFrame enumerates, for the plain carriers (where injected bytes are multiplexer bytes), every
+// partial frame followed by an orderly end of the carrier, with idle logical connections open: the dead session may not be
+// serviced in a loop, the idle connections are told, and the footprint returns to idle.
+func TestCarrierEndsInsideAFrame(t *testing.T) {
+	carriers := []string{vlib.CarTCP, vlib.CarHTTP}
+	for _, car := range carriers {
+		for part := 0; part < 4; part++ {
+			h := history{Carrier: car, Closer: "app", Overlap: 1, Payload: 100, Ending: "cut-fin-inside-frame", OpenAtEnd: 2, N1: 3, N2: 3, FramePart: part}
+			failure, meas, inconclusive := judgeHistory(h)
+			if inconclusive {
+				continue
+			}
+			vlib.Rec.Case(fmt.Sprintf("enumerated %+v", h), true, []string{"carrier:" + car, "ending:" + h.Ending, "enumerated"}, func() interface{} { return map[string]interface{}{"history": h, "measured": meas} })
+			if failure != "" {
+				t.Fatalf("%s", failure)
+			}
+		}
+	}
 }
